@@ -402,6 +402,8 @@ def f3_selector(shared_ctx, fresh_ctx):
     """F3 applies exactly when the shared context holds metadata of a class WITHOUT a namespace
     of its own that was built under another parent namespace than the fresh context built it."""
     for cls, meta in fresh_ctx.cache.items():
+        if not isinstance(cls, type):
+            return []       # the cache is not keyed by class: whatever differs, it is not the finding
         own = "Meta" in cls.__dict__ and hasattr(cls.Meta, "namespace")
         other = shared_ctx.cache.get(cls)
         if not own and other is not None and other.namespace != meta.namespace:
